@@ -809,6 +809,390 @@ Definition hzone_node_id (c : cfg) (z : hzone) (n : name) : option nat :=
   | _ => None
   end.
 
+(* ---------------------------------------------------------------- rdataset objects (second object level)
+   Rdataset / ImmutableRdataset objects have identity too.  A node object holds references to rdataset
+   objects (`node.rdatasets`); copy-on-write of a node copies the list (`new_node.rdatasets.extend(
+   node.rdatasets)`), so the new node SHARES its rdataset objects with the published node; in a plain
+   dns.zone.Zone these are ordinary mutable Rdatasets.  The transaction code therefore never edits an existing
+   rdataset: Set.union / intersection / difference clone first (`_clone`) and apply the in-place
+   *_update to the clone; `_add` first copies an ImmutableRdataset into a fresh Rdataset (`trds.update(existing)`).
+   Here every such step is explicit: `ralloc` creates an object, `o_inplace` mutates one. *)
+Record robj := mkRobj { ro_val : rds; ro_imm : bool }.
+Definition rheap := list robj.
+Definition robj0 := mkRobj (mkRds 0 0 0 0 []) false.
+
+Definition rval (h : rheap) (id : nat) : rds := ro_val (nth id h robj0).
+Definition rimm (h : rheap) (id : nat) : bool := ro_imm (nth id h robj0).
+Definition ralloc (h : rheap) (v : rds) (imm : bool) : rheap * nat := (h ++ [mkRobj v imm], length h).
+
+Fixpoint lset {A} (l : list A) (i : nat) (x : A) : list A :=
+  match l, i with
+  | [], _ => []
+  | _ :: r, O => x :: r
+  | y :: r, Datatypes.S j => y :: lset r j x
+  end.
+
+(* an in-place method (update_ttl / add / union_update / intersection_update / difference_update / update) on
+   the object `id`; ImmutableRdataset raises TypeError("immutable") *)
+Definition o_inplace (h : rheap) (id : nat) (f : rds -> rds) : res rheap :=
+  if rimm h id then Internal eTypeError
+  else Ok (lset h id (mkRobj (f (rval h id)) false)).
+
+(* Set._clone: a new object of class _clone_class (Rdataset for both Rdataset and ImmutableRdataset) *)
+Definition o_clone (h : rheap) (id : nat) : rheap * nat := ralloc h (rval h id) false.
+
+(* Set.union / intersection / difference on object `a` (the other operand is only read): clone, update the
+   clone in place; ImmutableRdataset wraps the result in a new ImmutableRdataset *)
+Definition o_setop (f : rds -> rds) (h : rheap) (a : nat) : res (rheap * nat) :=
+  let '(h1, cid) := o_clone h a in
+  do h2 <- o_inplace h1 cid f;
+  if rimm h a then Ok (ralloc h2 (rval h2 cid) true) else Ok (h2, cid).
+
+Definition o_union (h : rheap) (a : nat) (other : rds) := o_setop (fun v => rds_union v other) h a.
+Definition o_intersection (h : rheap) (a : nat) (other : rds) := o_setop (fun v => rds_intersection v other) h a.
+Definition o_difference (h : rheap) (a : nat) (other : rds) := o_setop (fun v => rds_difference v other) h a.
+
+(* node objects: lists of rdataset ids *)
+Definition onode := list nat.
+
+Fixpoint onode_find (rh : rheap) (nd : onode) (cls ty cov : Z) : option nat :=
+  match nd with
+  | [] => None
+  | i :: t => if rds_match (rval rh i) cls ty cov then Some i else onode_find rh t cls ty cov
+  end.
+
+Fixpoint onode_delete (rh : rheap) (nd : onode) (cls ty cov : Z) : onode :=
+  match nd with
+  | [] => []
+  | i :: t => if rds_match (rval rh i) cls ty cov then t else i :: onode_delete rh t cls ty cov
+  end.
+
+Definition onode_append (rh : rheap) (nd : onode) (rid : nat) : onode :=
+  match nd with
+  | [] => [rid]
+  | _ =>
+      match classify_rds (rval rh rid) with
+      | KCname => filter (fun x => negb (nkind_eqb (classify_rds (rval rh x)) KRegular)) nd ++ [rid]
+      | KRegular => filter (fun x => negb (nkind_eqb (classify_rds (rval rh x)) KCname)) nd ++ [rid]
+      | KNeutral => nd ++ [rid]
+      end
+  end.
+
+Definition onode_replace (rh : rheap) (nd : onode) (rid : nat) : onode :=
+  let r := rval rh rid in
+  onode_append rh (onode_delete rh nd (r_cls r) (r_ty r) (r_cov r)) rid.
+
+Record over := mkOver { ov_rh : rheap; ov_nh : list onode; ov_nodes : hmap; ov_changed : list name }.
+
+Definition onode_of (v : over) (nid : nat) : onode := nth nid (ov_nh v) [].
+Definition with_rh (v : over) (rh : rheap) : over := mkOver rh (ov_nh v) (ov_nodes v) (ov_changed v).
+
+Definition o_get_node (c : cfg) (v : over) (n : name) : res (option nat) :=
+  do k <- validate_name c n; Ok (amap_get (ov_nodes v) k).
+
+Definition o_get_rdataset (c : cfg) (v : over) (n : name) (ty cov : Z) : res (option nat) :=
+  do on <- o_get_node c v n;
+  Ok (match on with None => None | Some nid => onode_find (ov_rh v) (onode_of v nid) cIN ty cov end).
+
+Definition o_maybe_cow (c : cfg) (v : over) (n : name) : res (over * nat * name) :=
+  do k <- validate_name c n;
+  let fresh := length (ov_nh v) in
+  match amap_get (ov_nodes v) k with
+  | Some nid =>
+      if changed_has (ov_changed v) k then Ok (v, nid, k)
+      else Ok (mkOver (ov_rh v) (ov_nh v ++ [onode_of v nid]) (amap_set (ov_nodes v) k fresh)
+                      (changed_add (ov_changed v) k), fresh, k)
+  | None => Ok (mkOver (ov_rh v) (ov_nh v ++ [[]]) (amap_set (ov_nodes v) k fresh)
+                       (changed_add (ov_changed v) k), fresh, k)
+  end.
+
+Definition o_put_rdataset (c : cfg) (v : over) (n : name) (rid : nat) : res over :=
+  do x <- o_maybe_cow c v n;
+  let '(v1, nid, k) := x in
+  Ok (mkOver (ov_rh v1) (lset (ov_nh v1) nid (onode_replace (ov_rh v1) (onode_of v1 nid) rid))
+             (ov_nodes v1) (ov_changed v1)).
+
+Definition o_delete_rdataset (c : cfg) (v : over) (n : name) (ty cov : Z) : res over :=
+  do x <- o_maybe_cow c v n;
+  let '(v1, nid, k) := x in
+  let nd' := onode_delete (ov_rh v1) (onode_of v1 nid) cIN ty cov in
+  let nh' := lset (ov_nh v1) nid nd' in
+  match nd' with
+  | [] => do m <- amap_del (ov_nodes v1) k; Ok (mkOver (ov_rh v1) nh' m (ov_changed v1))
+  | _ => Ok (mkOver (ov_rh v1) nh' (ov_nodes v1) (ov_changed v1))
+  end.
+
+Definition o_delete_node (c : cfg) (v : over) (n : name) : res over :=
+  do k <- validate_name c n;
+  if amap_has (ov_nodes v) k
+  then Ok (mkOver (ov_rh v) (ov_nh v) (amap_remove (ov_nodes v) k) (changed_add (ov_changed v) k))
+  else Ok v.
+
+(* Transaction._add on objects *)
+Definition o_add (c : cfg) (replace : bool) (args : list arg) (v : over) : res over :=
+  match args with
+  | [] => Lib eTypeError
+  | a :: rest =>
+      do x <- add_parse a rest;
+      let '(n, r, rest1) := x in
+      if negb (r_cls r =? cIN) then Lib eValueError
+      else if (r_ty r =? tSOA) && negb (origin_ok c n) then Lib eValueError
+      else match rest1 with
+           | _ :: _ => Lib eTypeError
+           | [] =>
+               (* the rdataset object handed over by the caller (or built by from_rdata / to_rdataset) *)
+               let '(rh1, rid) := ralloc (ov_rh v) r false in
+               let v1 := with_rh v rh1 in
+               do y <- (if replace then Ok (v1, rid)
+                        else
+                          do ex <- o_get_rdataset c v1 n (r_ty r) (r_cov r);
+                          match ex with
+                          | None => Ok (v1, rid)
+                          | Some e =>
+                              (* if isinstance(existing, ImmutableRdataset): trds = Rdataset(...); trds.update(existing) *)
+                              do z <- (if rimm rh1 e then
+                                         let ev := rval rh1 e in
+                                         let '(rh2, t) := ralloc rh1 (mkRds (r_cls ev) (r_ty ev) (r_cov ev) 0 []) false in
+                                         do rh3 <- o_inplace rh2 t (fun tv => fold_left rds_add (r_items ev) (update_ttl tv (r_ttl ev)));
+                                         Ok (rh3, t)
+                                       else Ok (rh1, e));
+                              let '(rh4, e') := z in
+                              do u <- o_union rh4 e' (rval rh4 rid);
+                              Ok (with_rh v (fst u), snd u)
+                          end);
+               o_put_rdataset c (fst y) n (snd y)
+           end
+  end.
+
+Definition o_delete_common (c : cfg) (exact : bool) (n : name) (ord : option rds) (rest : list arg) (v : over) : res over :=
+  match rest with
+  | _ :: _ => Lib eTypeError
+  | [] =>
+      match ord with
+      | Some (mkRds cls ty cov ttl (i :: items)) =>
+          let r := mkRds cls ty cov ttl (i :: items) in
+          if negb (cls =? cIN) then Lib eValueError
+          else
+            do ex <- o_get_rdataset c v n ty cov;
+            match ex with
+            | Some e =>
+                do y <- (if exact then
+                           do w <- o_intersection (ov_rh v) e r;
+                           if negb (rds_eqb (rval (fst w) (snd w)) r) then Lib eDeleteNotExact else Ok (fst w)
+                         else Ok (ov_rh v));
+                do d <- o_difference y e r;
+                let v2 := with_rh v (fst d) in
+                let dv := rval (fst d) (snd d) in
+                match r_items dv with
+                | [] => o_delete_rdataset c v2 n (r_ty dv) (r_cov dv)
+                | _ => o_put_rdataset c v2 n (snd d)
+                end
+            | None => if exact then Lib eDeleteNotExact else Ok v
+            end
+      | _ =>
+          if exact then
+            do on <- o_get_node c v n;
+            match on with None => Lib eDeleteNotExact | Some _ => o_delete_node c v n end
+          else o_delete_node c v n
+      end
+  end.
+
+Definition o_delete_bytype (c : cfg) (exact : bool) (n : name) (t : arg) (rest1 : list arg) (v : over) : res over :=
+  do ty <- make_type t;
+  do x <- match rest1 with
+          | [] => Ok (0, [])
+          | c0 :: rest2 => do cv <- make_type c0; Ok (cv, rest2)
+          end;
+  let '(cov, rest2) := x in
+  match rest2 with
+  | _ :: _ => Lib eTypeError
+  | [] =>
+      do ex <- o_get_rdataset c v n ty cov;
+      match ex with
+      | None => if exact then Lib eDeleteNotExact else Ok v
+      | Some _ => o_delete_rdataset c v n ty cov
+      end
+  end.
+
+Definition o_delete (c : cfg) (exact : bool) (args : list arg) (v : over) : res over :=
+  match args with
+  | [] => Lib eTypeError
+  | a :: rest =>
+      match a with
+      | AName n | AStr n =>
+          match rest with
+          | t :: rest1 =>
+              if is_type_arg t then o_delete_bytype c exact n t rest1 v
+              else do y <- rdataset_from_args true rest; o_delete_common c exact n (fst y) (snd y) v
+          | [] => do y <- rdataset_from_args true rest; o_delete_common c exact n (fst y) (snd y) v
+          end
+      | ARRset n r => o_delete_common c exact n (Some r) rest v
+      | _ => Lib eTypeError
+      end
+  end.
+
+Definition o_write (f : over -> res over) (t : txn (S:=over)) : res (txn (S:=over)) :=
+  if t_ended t then Lib eAlreadyEnded
+  else if t_ro t then Lib eReadOnly
+  else do s <- f (t_st t); Ok (mkTxn s (t_ro t) (t_ended t)).
+
+Definition o_update_serial (c : cfg) (value : Z) (relative : bool) (nm : option arg) (t : txn (S:=over)) : res (txn (S:=over)) :=
+  if t_ended t then Lib eAlreadyEnded
+  else if value <? 0 then Lib eValueError
+  else
+    do n <- match nm with None => Ok NameM.empty | Some a => name_of_arg a end;
+    do ex <- o_get_rdataset c (t_st t) n tSOA 0;
+    match ex with
+    | None => Lib eKeyError
+    | Some e =>
+        let ev := rval (ov_rh (t_st t)) e in
+        match r_items ev with
+        | [] => Lib eKeyError
+        | (body, serial) :: _ =>
+            do ser <- (if relative then serial_add serial value else Ok (value mod 4294967296));
+            let ser := if ser =? 0 then 1 else ser in
+            o_write (o_add c true [AName n; ARds (mkRds cIN tSOA 0 (r_ttl ev) [(body, ser)])]) t
+        end
+    end.
+
+(* the published zone at this level *)
+Definition ozone := (rheap * list onode * hmap)%type.
+
+(* ImmutableVersion.__init__ (versioned and B-tree zones commit through it): every changed node still in the
+   map is replaced by an ImmutableVersionedNode - a new node object holding new ImmutableRdataset objects *)
+Fixpoint o_wrap_rdatasets (rh : rheap) (ids : list nat) : rheap * list nat :=
+  match ids with
+  | [] => (rh, [])
+  | i :: r => let '(rh1, j) := ralloc rh (rval rh i) true in
+              let '(rh2, js) := o_wrap_rdatasets rh1 r in (rh2, j :: js)
+  end.
+
+Fixpoint o_make_immutable (names : list name) (z : ozone) : ozone :=
+  match names with
+  | [] => z
+  | k :: r =>
+      let '(rh, nh, m) := z in
+      match amap_get m k with
+      | Some nid =>
+          match nth nid nh [] with
+          | [] => o_make_immutable r z                  (* `if node:` is false for an empty node *)
+          | ids =>
+              let '(rh1, ids') := o_wrap_rdatasets rh ids in
+              o_make_immutable r (rh1, nh ++ [ids'], amap_set m k (length nh))
+          end
+      | None => o_make_immutable r z
+      end
+  end.
+
+Definition o_publish (c : cfg) (v : over) : ozone :=
+  if c_kind c =? 0 then (ov_rh v, ov_nh v, ov_nodes v)
+  else o_make_immutable (ov_changed v) (ov_rh v, ov_nh v, ov_nodes v).
+
+Definition o_begin (z : ozone) (replacement : bool) : over :=
+  let '(rh, nh, m) := z in mkOver rh nh (if replacement then [] else m) [].
+
+Definition o_changed (v : over) : bool := match ov_changed v with [] => false | _ => true end.
+
+Definition o_end (c : cfg) (commit : bool) (z : ozone) (t : txn (S:=over)) : res (ozone * txn (S:=over)) :=
+  if t_ended t then Lib eAlreadyEnded
+  else
+    let z' := if negb (t_ro t) && commit && o_changed (t_st t) then o_publish c (t_st t) else z in
+    Ok (z', mkTxn (t_st t) (t_ro t) true).
+
+Definition onode_val (v : over) (nid : nat) : node := map (rval (ov_rh v)) (onode_of v nid).
+
+Definition o_step (c : cfg) (o : op) (z : ozone) (t : txn (S:=over)) : res (out * ozone * txn (S:=over)) :=
+  match o with
+  | OAdd a => do t' <- o_write (o_add c false a) t; Ok (RNone, z, t')
+  | OReplace a => do t' <- o_write (o_add c true a) t; Ok (RNone, z, t')
+  | ODelete a => do t' <- o_write (o_delete c false a) t; Ok (RNone, z, t')
+  | ODeleteExact a => do t' <- o_write (o_delete c true a) t; Ok (RNone, z, t')
+  | OSerial v r n => do t' <- o_update_serial c v r n t; Ok (RNone, z, t')
+  | OGet a ty cov =>
+      if t_ended t then Lib eAlreadyEnded
+      else do n <- name_of_arg a; do ty' <- make_type (AInt ty); do cov' <- make_type (AInt cov);
+           do r <- o_get_rdataset c (t_st t) n ty' cov';
+           Ok (RRds (match r with Some i => Some (rval (ov_rh (t_st t)) i) | None => None end), z, t)
+  | OExists a =>
+      if t_ended t then Lib eAlreadyEnded
+      else do n <- name_of_arg a; do on <- o_get_node c (t_st t) n;
+           Ok (RBool (match on with Some _ => true | None => false end), z, t)
+  | OChanged =>
+      if t_ended t then Lib eAlreadyEnded
+      else Ok (RBool (if t_ro t then false else o_changed (t_st t)), z, t)
+  | OIter =>
+      if t_ended t then Lib eAlreadyEnded
+      else Ok (RPair (zlen (ov_nodes (t_st t)))
+                     (fold_right (fun kn acc => zlen (onode_of (t_st t) (snd kn)) + acc) 0 (ov_nodes (t_st t))), z, t)
+  | OGetNode a =>
+      if t_ended t then Lib eAlreadyEnded
+      else do n <- name_of_arg a; do on <- o_get_node c (t_st t) n;
+           Ok (RNode (match on with Some nid => Some (onode_val (t_st t) nid) | None => None end), z, t)
+  | OCommit => do x <- o_end c true z t; Ok (RNone, fst x, snd x)
+  | ORollback => do x <- o_end c false z t; Ok (RNone, fst x, snd x)
+  end.
+
+Definition o_exit (c : cfg) (clean : bool) (z : ozone) (t : txn (S:=over)) : ozone :=
+  match o_end c clean z t with
+  | Ok (z', _) => z'
+  | _ => z
+  end.
+
+Fixpoint o_run_manual (c : cfg) (ops : list op) (z : ozone) (t : txn (S:=over)) : list (res out) * ozone :=
+  match ops with
+  | [] => ([], o_exit c false z t)
+  | o :: r =>
+      match o_step c o z t with
+      | Ok (x, z', t') => let '(outs, zf) := o_run_manual c r z' t' in (Ok x :: outs, zf)
+      | Lib e => let '(outs, zf) := o_run_manual c r z t in (Lib e :: outs, zf)
+      | Internal e => let '(outs, zf) := o_run_manual c r z t in (Internal e :: outs, zf)
+      end
+  end.
+
+Fixpoint o_run_with (c : cfg) (ops : list op) (fault : option nat) (z : ozone) (t : txn (S:=over)) : list (res out) * ozone :=
+  match fault with
+  | Some O => ([Lib eInjected], o_exit c false z t)
+  | _ =>
+      match ops with
+      | [] => match fault with
+              | Some _ => ([Lib eInjected], o_exit c false z t)
+              | None => ([], o_exit c true z t)
+              end
+      | o :: r =>
+          match o_step c o z t with
+          | Ok (x, z', t') =>
+              let '(outs, zf) := o_run_with c r (match fault with Some (Datatypes.S k) => Some k | _ => None end) z' t' in
+              (Ok x :: outs, zf)
+          | Lib e => ([Lib e], o_exit c false z t)
+          | Internal e => ([Internal e], o_exit c false z t)
+          end
+      end
+  end.
+
+Definition o_open (mode : Z) (z : ozone) : txn (S:=over) :=
+  if mode =? 2 then mkTxn (o_begin z false) true false
+  else mkTxn (o_begin z (mode =? 1)) false false.
+
+Definition o_run_txn (c : cfg) (x : txnspec) (z : ozone) : list (res out) * ozone :=
+  if x_style x =? 1 then o_run_with c (x_ops x) (x_fault x) z (o_open (x_mode x) z)
+  else o_run_manual c (x_ops x) z (o_open (x_mode x) z).
+
+Fixpoint obj_hist (c : cfg) (h : list txnspec) (z : ozone) : list (list (res out) * ozone) :=
+  match h with
+  | [] => []
+  | x :: r => let '(outs, z') := o_run_txn c x z in (outs, z') :: obj_hist c r z'
+  end.
+
+(* the value of a published object-level zone *)
+Definition oderef (z : ozone) : nmap :=
+  let '(rh, nh, m) := z in map (fun kn => (fst kn, map (rval rh) (nth (snd kn) nh []))) m.
+
+Definition ozone_node_id (c : cfg) (z : ozone) (n : name) : option nat :=
+  match validate_name c n with
+  | Ok k => amap_get (snd z) k
+  | _ => None
+  end.
+
 (* ---------------------------------------------------------------- harness interface *)
 Definition obs_of_rdata (x : rdata) : obs := L [I (fst x); I (snd x)].
 Definition obs_of_rds (r : rds) : obs := L [I (r_ty r); I (r_cov r); I (r_ttl r); L (map obs_of_rdata (r_items r))].
@@ -934,17 +1318,62 @@ Fixpoint drop_identity (l : list obs) : list obs :=
 
 Definition eModelsDisagree := 998.
 
-(* Both models are evaluated on every case: the object-level model gives the observation (results, zone
-   content, object identities); the value-level model (the one `refines` is about) must give the same
-   results and content, otherwise the case is reported as a disagreement. *)
+(* rdataset objects of the node of p after the transaction: same object as the rdataset of the same
+   (type, covers) in the node before the transaction?  immutable? *)
+Definition obs_of_rds_identity (c : cfg) (before after : ozone) (p : name) : obs :=
+  match ozone_node_id c after p with
+  | None => N
+  | Some j =>
+      let '(rha, nha, _) := after in
+      let '(rhb, nhb, _) := before in
+      let bnode := match ozone_node_id c before p with Some i => nth i nhb [] | None => [] end in
+      L (map (fun rid =>
+                let r := rval rha rid in
+                L [match onode_find rhb bnode (r_cls r) (r_ty r) (r_cov r) with
+                   | Some old => ob (Nat.eqb old rid)
+                   | None => N
+                   end;
+                   ob (rimm rha rid)])
+             (nth j nha []))
+  end.
+
+Definition obs_of_onode_identity (c : cfg) (before after : ozone) (p : name) : obs :=
+  match ozone_node_id c before p, ozone_node_id c after p with
+  | Some i, Some j => ob (Nat.eqb i j)
+  | _, _ => N
+  end.
+
+Fixpoint obs_of_otxns (c : cfg) (probes : list name) (before : ozone) (l : list (list (res out) * ozone)) : list obs :=
+  match l with
+  | [] => []
+  | x :: r =>
+      L [L (map obs_of_out (fst x));
+         L [I (zlen (snd (snd x))); L (map (obs_of_probe c (oderef (snd x))) probes)];
+         L (map (obs_of_onode_identity c before (snd x)) probes);
+         L (map (obs_of_rds_identity c before (snd x)) probes)]
+      :: obs_of_otxns c probes (snd x) r
+  end.
+
+Fixpoint drop_rds_identity (l : list obs) : list obs :=
+  match l with
+  | [] => []
+  | L [a; b; i; _] :: r => L [a; b; i] :: drop_rds_identity r
+  | x :: r => x :: drop_rds_identity r
+  end.
+
+(* All three implementation models are evaluated on every case.  The rdataset-object model gives the
+   observation (results, zone content, node-object identities, rdataset-object identities and mutability);
+   the node-object model must agree on results, content and node identities, the value-level model (the one
+   `refines` is about) on results and content - otherwise the case is reported as a disagreement. *)
 Definition run_case (kind rel : Z) (origin probes hist : list obs) (idobs : bool) : obs :=
   match name_of_obs origin, names_of_obs probes, hist_of_obs hist with
   | Some origin, Some probes, Some h =>
       let c := mkCfg kind (rel =? 1) origin in
+      let oo := obs_of_otxns c probes ([], [], []) (obj_hist c h ([], [], [])) in
       let oh := obs_of_htxns c probes ([], []) (heap_hist c h ([], [])) in
       let ov := map (obs_of_txn c probes) (impl_hist c h []) in
-      if obs_eqb (L (drop_identity oh)) (L ov)
-      then (if idobs then L oh else L (drop_identity oh))
+      if obs_eqb (L (drop_rds_identity oo)) (L oh) && obs_eqb (L (drop_identity oh)) (L ov)
+      then (if idobs then L oo else L (drop_identity oh))
       else E eModelsDisagree
   | _, _, _ => E eBadCase
   end.
